@@ -171,3 +171,10 @@ def num(x: Any) -> Any:
 # set by the shard while a case runs with a fractional time unit (files scaled by a dyadic constant, loaded with
 # HTA_DISABLE_NS_ROUNDING=1): the reference model then keeps the file's fractional times instead of rounding them inward
 FLOAT_MODE = False
+
+
+def same_symbol(decoded: Any, in_file: Any) -> bool:
+    """A decoded name / category vs. the file's value; a field the file omits is a missing value (NaN) after decoding."""
+    if in_file is None:
+        return decoded is None or (isinstance(decoded, float) and decoded != decoded)
+    return decoded == in_file
